@@ -135,12 +135,21 @@ func (m *omap) live() []*oentry {
 func (m *omap) lookupSym(ps *PathState, k value) (value, value) {
 	zeroV := zero(m.elemType)
 	zt, ok := toSym(zeroV)
+	// set-like maps (map[K]struct{}): the element carries no information, only the
+	// presence term matters; a boolean placeholder stands for the element internally
+	unit := false
+	if st, isStruct := zeroV.(structure); !ok && isStruct && len(st) == 0 {
+		unit, ok, zt = true, true, Sym{S: SBool, T: "false"}
+	}
 	if !ok {
 		panic(unsupported{fmt.Sprintf("symbolic-key lookup in map with element type %s", m.elemType)})
 	}
 	valT := zt.T
 	okT := "false"
 	if m == nil {
+		if unit {
+			return zeroV, false
+		}
 		return Sym{S: zt.S, T: valT}, false
 	}
 	kt, _ := toSym(k)
@@ -179,6 +188,9 @@ func (m *omap) lookupSym(ps *PathState, k value) (value, value) {
 			continue
 		}
 		ev, ok := toSym(e.val)
+		if unit {
+			ev, ok = Sym{S: SBool, T: "true"}, true
+		}
 		if !ok {
 			panic(unsupported{"symbolic-key lookup with non-scalar element"})
 		}
@@ -219,6 +231,9 @@ func (m *omap) lookupSym(ps *PathState, k value) (value, value) {
 	}
 	if s, ok := okV.(Sym); ok {
 		okV = ps.Name(s, 48)
+	}
+	if unit {
+		return zeroV, okV
 	}
 	return ps.Name(Sym{S: zt.S, T: valT}, 48), okV
 }
